@@ -1,5 +1,7 @@
 import Rpcx.Model.Server
 import Rpcx.Props.C04
+import Rpcx.Model.Plugins
+import Rpcx.Gen.Plugins
 /-
   C15: rejected connections and requests never reach a handler, on any ingress.
   Theorems about `Srv.ingressOne` (native serveConn loop, HTTP gateway, JSON-RPC endpoint – all
@@ -134,5 +136,77 @@ theorem http_rejected_is_error (acceptOk : Bool) (env : Env) (req : Msg)
 /-- non-vacuity: a wrong token with the heartbeat AND one-way flags set on the gateway -/
 example : Rejected .gateway true { authErr := some [1#8] } ⟨⟨8#8, 0, 0x60#8, 0x10#8, 0, 0, 0, 0, 0, 0, 0, 5⟩, [], [], [], []⟩ := by
   right; right; right; left; exact ⟨by simp, by intro h; cases h⟩
+
+/-! ### several plugins per stage: the first rejection is final -/
+
+open Rpcx.Plug in
+theorem firstErr_some_of_mem : ∀ (vs : List (Option Bytes)), (∃ v ∈ vs, v ≠ none) → firstErr vs ≠ none
+  | [], h => by simp at h
+  | none :: rest, h => by
+    simp only [firstErr]
+    apply firstErr_some_of_mem rest
+    obtain ⟨v, hv, hne⟩ := h
+    simp at hv
+    rcases hv with rfl | hv
+    · exact absurd rfl hne
+    · exact ⟨v, hv, hne⟩
+  | some e :: _, _ => by simp [firstErr]
+
+open Rpcx.Plug in
+/-- the container's answer is the FIRST rejection: whatever the plugins registered behind it say -/
+theorem firstErr_prefix (pre : List (Option Bytes)) (e : Bytes) (post : List (Option Bytes)) (h : ∀ v ∈ pre, v = none) :
+    firstErr (pre ++ some e :: post) = some e := by
+  induction pre with
+  | nil => simp [firstErr]
+  | cons x xs ih =>
+    have hx : x = none := h x (by simp)
+    subst hx
+    simp only [List.cons_append, firstErr]
+    exact ih (fun v hv => h v (by simp [hv]))
+
+open Rpcx.Plug in
+theorem allAccept_false_of_mem : ∀ (bs : List Bool), (∃ b ∈ bs, b = false) → allAccept bs = false
+  | [], h => by simp at h
+  | true :: rest, h => by
+    simp only [allAccept]
+    apply allAccept_false_of_mem rest
+    obtain ⟨b, hb, hf⟩ := h
+    simp at hb
+    rcases hb with rfl | hb
+    · simp at hf
+    · exact ⟨b, hb, hf⟩
+  | false :: _, _ => by simp [allAccept]
+
+open Rpcx.Plug in
+/-- **any number of plugins per stage, one of them rejecting – at any position, whatever the others
+    answer**: no handler runs, on any ingress, for any request header.  (A pre-call rejection is reached
+    only by requests that got as far as the call: the service and method exist, the arguments decode.) -/
+theorem any_rejecting_plugin_no_invoke (ing : Ingress) (ps : Plugins) (base : Env) (req : Msg)
+    (h : (∃ b ∈ ps.accept, b = false) ∨ (∃ v ∈ ps.postRead, v ≠ none)
+      ∨ ((∃ v ∈ ps.preCall, v ≠ none) ∧ base.target ≠ .router ∧ base.target ≠ .noService ∧ base.target ≠ .noMethod
+          ∧ base.codecKnown = true ∧ base.argsErr = none)) :
+    Action.invoke ∉ ingressOne ing ps.acceptOk (ps.env base) req := by
+  apply rejected_no_invoke
+  rcases h with h | h | ⟨h, h1, h2, h3, h4, h5⟩
+  · left; exact allAccept_false_of_mem _ h
+  · right; left
+    have := firstErr_some_of_mem _ h
+    simp only [Plugins.env]
+    cases hq : firstErr ps.postRead with
+    | none => exact absurd hq this
+    | some _ => rfl
+  · right; right; right; right
+    exact ⟨by simpa [Plugins.env] using firstErr_some_of_mem _ h, h1, h2, h3, h4, h5⟩
+
+/-- the tie: in the CURRENT source the container methods of the three rejecting stages return the first
+    rejection from inside their loop (`firstErr` / `allAccept` are those loops) -/
+theorem tie_plugin_stages_first_rejection_wins :
+    Gen.pluginStages.map (·.1) = ["DoPostConnAccept", "DoPostReadRequest", "DoPreCall"]
+    ∧ Gen.pluginStages.all (·.2) = true := by decide
+
+open Rpcx.Plug in
+/-- non-vacuity: three post-read plugins, the middle one rejecting, an accepting one behind it -/
+example : firstErr [none, some [0x41#8], none] = some [0x41#8] ∧ allAccept [true, false, true] = false := by decide
+
 
 end Rpcx.Props.C15
